@@ -18,16 +18,15 @@ import (
 	"verifharness/internal/core"
 )
 
-// classifiers of known_findings.json (named predicates over the input)
-const (
-	clsFFFD = "c07.stringContainsUFFFD" // HasSurvivingFFFD(content)
-)
+// C07 has no entry in known_findings.json any more (the U+FFFD rejection was repaired in
+// /repo): every failure below is reported with the empty classifier, i.e. as a VIOLATION.
 
 // ccase is one content with its renderings (or, with Enc == "", a list of malformed texts).
 type ccase struct {
 	Stream   string   `json:"stream"`
 	Enc      string   `json:"enc"`
 	Texts    []string `json:"texts"`
+	Hex      []string `json:"texts_hex,omitempty"` // the texts as bytes, when they are not valid UTF-8 (replay files are JSON)
 	AllowDup bool     `json:"allow_dup,omitempty"`
 	v        *JV
 }
@@ -49,16 +48,6 @@ func goCanon(text string) (r goResult) {
 		r.out = string(b)
 	})
 	return
-}
-
-func classifierOf(v *JV) string {
-	switch {
-	case v == nil:
-		return ""
-	case HasSurvivingFFFD(v):
-		return clsFFFD
-	}
-	return ""
 }
 
 func short(s string) string {
@@ -144,7 +133,7 @@ func judge(c *core.Ctx, cases []*ccase) {
 				if eof {
 					e = "1"
 				}
-				rreqs = append(rreqs, "read "+e+toks)
+				rreqs = append(rreqs, "read "+e+" "+hexs(t)+toks)
 				rref = append(rref, rt{i, j})
 			}
 		}
@@ -199,7 +188,7 @@ func judge(c *core.Ctx, cases []*ccase) {
 			judgeUnrepresentable(c, cs, rs, func(j int) string { return readOf[rt{i, j}] })
 			continue
 		}
-		cls := classifierOf(cs.v)
+		const cls = "" // no known finding is left for C07
 		replay := cs
 		c.Count("stream:"+cs.Stream, 1)
 		c.Count("renderings", int64(len(rs)))
@@ -304,18 +293,29 @@ func unhexShort(h string) string {
 	return fmt.Sprintf("%q", short(s))
 }
 
-// checkRead compares the model reader (on the decoder's tokens) with the real code.
+// checkRead compares the model of CanonicalJSON (checkEncoding on the text, then the reader on
+// the decoder's tokens) with the real code.
 func checkRead(c *core.Ctx, text string, g goResult, resp string, replay any) {
 	c.Count("reader_tie", 1)
 	f := strings.Fields(resp)
-	if len(f) < 3 {
+	if len(f) < 5 || f[len(f)-4] != "dv" || f[len(f)-2] != "enc" {
 		c.TieBroken("drive:C07/protocol", "unexpected model response "+short(resp), replay)
 		return
 	}
-	dv := f[len(f)-1]
+	dv, enc := f[len(f)-3], f[len(f)-1]
 	if dv != "1" {
 		c.TieBroken("drive:C07/decoder-automaton", fmt.Sprintf("json.Decoder emitted a token sequence the decoder model forbids on %q", short(text)), replay)
 		return
+	}
+	// the model of checkEncoding against an independent reading of "valid encoding", on texts that
+	// are JSON by syntax (elsewhere a backslash may stand outside a string literal, the two
+	// scanners may then differ, and the text is rejected whatever the encoding check says)
+	if want := encodingOK(text); json.Valid([]byte(text)) && (enc == "1") != want {
+		c.TieBroken("drive:C07/checkEncoding", fmt.Sprintf("model checkEncoding says %s on %q, the harness's own scanner says %v", enc, short(text), want), replay)
+		return
+	}
+	if enc == "0" {
+		c.Count("reader_tie:encoding_rejected", 1)
 	}
 	switch f[0] {
 	case "ok":
@@ -331,16 +331,75 @@ func checkRead(c *core.Ctx, text string, g goResult, resp string, replay any) {
 	}
 }
 
+// encodingOK is the harness's own reading of README rule 1 / 8.3 on a JSON text: the bytes are
+// valid UTF-8 and, read with a string-aware scanner (escapes only count inside string literals),
+// every \uXXXX escape of a UTF-16 surrogate is a high half followed at once by the escape of a low half.
+func encodingOK(text string) bool {
+	if !utf8.ValidString(text) {
+		return false
+	}
+	unit := func(i int) int { // the code unit of the escape starting at text[i], or -1
+		if i+6 > len(text) || text[i] != '\\' || text[i+1] != 'u' {
+			return -1
+		}
+		v, err := strconv.ParseUint(text[i+2:i+6], 16, 16)
+		if err != nil || strings.ContainsAny(text[i+2:i+6], "+-_") {
+			return -1
+		}
+		return int(v)
+	}
+	inStr := false
+	for i := 0; i < len(text); {
+		switch {
+		case !inStr:
+			if text[i] == '"' {
+				inStr = true
+			}
+			i++
+		case text[i] == '"':
+			inStr = false
+			i++
+		case text[i] != '\\':
+			i++
+		default:
+			u := unit(i)
+			switch {
+			case u >= 0xD800 && u < 0xDC00:
+				if lo := unit(i + 6); lo < 0xDC00 || lo >= 0xE000 {
+					return false
+				}
+				i += 12
+			case u >= 0xDC00 && u < 0xE000:
+				return false
+			case u >= 0:
+				i += 6
+			default:
+				i += 2
+			}
+		}
+	}
+	return true
+}
+
 // judgeMalformed: every text of the case is not one complete JSON value and must be rejected.
 func judgeMalformed(c *core.Ctx, cs *ccase, rs []goResult, read func(int) string) {
 	for j, t := range cs.Texts {
 		c.Count("stream:"+cs.Stream, 1)
 		c.Eval("malformed:"+t, true)
 		one := &ccase{Stream: cs.Stream, Texts: []string{t}}
+		if !utf8.ValidString(t) {
+			one.Hex = []string{hexs(t)}
+		}
 		r := rs[j]
 		switch {
 		case r.panic != "":
 			c.Fail("", fmt.Sprintf("c14n.CanonicalJSON panicked on malformed input %q: %s", short(t), r.panic), one)
+		case r.err == "" && cs.Stream == "invalid-utf8":
+			c.Fail("", fmt.Sprintf("input %q is not valid UTF-8 (README rule 1: a document with invalid character encoding will be rejected) but is accepted as %q",
+				short(t), short(r.out)), one)
+		case r.err == "" && cs.Stream == "unpaired-surrogate-escape":
+			c.Fail("", fmt.Sprintf("input %q has the escape of a UTF-16 surrogate without its other half (no character, no UTF-8 encoding: README rule 8.3) but is accepted as %q, which is also the canonical form of the different text %q",
+				short(t), short(r.out), short(r.out)), one)
 		case r.err == "":
 			c.Fail("", fmt.Sprintf("input %q is not one complete JSON value but is accepted as %q", short(t), short(r.out)), one)
 		default:
@@ -623,6 +682,15 @@ func ContentOfKeep(text string) (*JV, error) {
 func Run(c *core.Ctx) int {
 	var rc ccase
 	if c.ReplayCase(&rc) {
+		for i, h := range rc.Hex {
+			if t, err := unhex(h); err == nil && i < len(rc.Texts) {
+				rc.Texts[i] = t
+			}
+		}
+		if rc.Stream == "object-model-string" {
+			objectModelStrings(c, rc.Texts)
+			return c.Finish("replay", nil)
+		}
 		if rc.Enc != "" {
 			v, _, err := Dec(strings.Fields(rc.Enc))
 			if err != nil {
@@ -706,21 +774,25 @@ func Run(c *core.Ctx) int {
 		v := g.withDupKeys()
 		add(mk("duplicate-keys(outside quantifier)", v, renderAll(v, r, 3)))
 	}
-	// (G) U+FFFD inside a string or a surviving key (known finding), and under a null member (dropped: fine)
-	for i := 0; i < c.Pick(60, 600); i++ {
+	// (G) U+FFFD inside a string or a key (a character like any other: the literal character, \ufffd and \uFFFD
+	// are renderings of the same content), and as the key of a null member (dropped)
+	for i := 0; i < c.Pick(200, 3000); i++ {
 		s := g.str() + "\ufffd" + g.str()
 		var v *JV
-		switch i % 4 {
+		switch i % 5 {
 		case 0:
 			v = &JV{K: Str, S: s}
 		case 1:
 			v = &JV{K: Obj, M: []Member{{"a", &JV{K: Int, I: 1}}, {s, &JV{K: Bool, B: true}}}}
 		case 2:
 			v = &JV{K: Arr, A: []*JV{{K: Null}, {K: Str, S: s}}}
+		case 3:
+			v = &JV{K: Obj, M: []Member{{s, &JV{K: Str, S: s}}, {"\ufffc", &JV{K: Int, I: 1}}, {"\ufffe", &JV{K: Int, I: 2}}, {"\U00010000", &JV{K: Int, I: 3}}}}
 		default:
 			v = &JV{K: Obj, M: []Member{{s, &JV{K: Null}}, {"b", &JV{K: Int, I: 2}}}} // key of a null member: dropped
 		}
-		add(mk("u+fffd", v, renderAll(v, r, 3)))
+		count(c, v)
+		add(mk("u+fffd", v, renderAll(v, r, 6)))
 	}
 	// (H) numbers beyond float64: not representable, every text that has one must be rejected
 	bigs := []string{"1e999", "-1e999", "1E309", "2e308", "-1.8e308", "1" + strings.Repeat("0", 400), "1e400", "123456789e301", "1.7976931348623159e308", "-0.1e310"}
@@ -831,6 +903,146 @@ func Run(c *core.Ctx) int {
 	}
 	judge(c, []*ccase{mal})
 
-	return c.Finish("contents generated type-directed (depth ≤ 6, null patterns, key classes, int64 boundaries, float64 of every kind, every scalar value as a one-character string), each rendered in 2–6 styles (member order, whitespace, escape style, number spelling); a text with a number beyond float64 must be rejected; oracle on the Go output: all renderings agree, output parses with an independent strict canonical-form parser to the content minus null members, is valid UTF-8 JSON, canonicalises to itself, equals the README text computed by the Lean specification; then compared with the Lean model of the code (canon, and the token-level reader on json.Decoder's tokens); malformed inputs must be rejected; non-trivial = canonicalisation changed the text of some rendering; distinct by content",
+	// (L) invalid character encoding in the raw text: must be rejected (README rules 1 and 8.3), never read as U+FFFD
+	bad := &ccase{Stream: "invalid-utf8"}
+	invalidSeqs := []string{"\xff", "\xfe", "\x80", "\xbf", "\xc0\xaf", "\xc1\xbf", "\xc2", "\xe0\x80\x80", "\xe0\x9f\xbf", "\xed\xa0\x80", "\xed\xbf\xbf",
+		"\xef\xbf", "\xe2\x82", "\xf0\x80\x80\x80", "\xf0\x8f\xbf\xbf", "\xf4\x90\x80\x80", "\xf5\x80\x80\x80", "\xf0\x9f\x98", "\xf8\x88\x80\x80\x80", "\xed\xa0\xbd\xed\xb8\x80"}
+	for _, q := range invalidSeqs {
+		bad.Texts = append(bad.Texts, `"`+q+`"`, `"a`+q+`b"`, `["`+q+`"]`, `{"`+q+`":1}`, `{"k":"`+q+`"}`, `{"`+q+`":null,"b":1}`, `{"a":1}`+q, q+`1`, `[1,`+q+`2]`,
+			`"\ufffd`+q+`"`, "\"\ufffd"+q+"\"")
+	}
+	for i := 0; i < c.Pick(400, 6000); i++ {
+		v := g.value(1 + r.Intn(4))
+		if HasBig(v) {
+			continue
+		}
+		t, _ := Render(v, Style{WS: r.Intn(3), Esc: r.Intn(5), Num: r.Intn(5)}, r)
+		q := invalidSeqs[r.Intn(len(invalidSeqs))]
+		p := r.Intn(len(t) + 1)
+		var m string
+		if r.Intn(2) == 0 || p == len(t) {
+			m = t[:p] + q + t[p:]
+		} else {
+			m = t[:p] + q + t[p+1:]
+		}
+		if !utf8.ValidString(m) { // cutting a multi-byte character and pasting may, rarely, give valid text
+			bad.Texts = append(bad.Texts, m)
+			c.Count("invalid-utf8:mutated", 1)
+		}
+	}
+	judge(c, []*ccase{bad})
+
+	lone := &ccase{Stream: "unpaired-surrogate-escape"}
+	hexForms := []string{"%04x", "%04X"}
+	for i := 0; i < c.Pick(600, 10000); i++ {
+		var sb strings.Builder
+		esc := r.Intn(5)
+		for _, ch := range g.str() {
+			sb.WriteString(EscapeRune(ch, esc, r))
+		}
+		// one or two surrogate escapes that are no pair: a lone half, two high halves, low before high, halves apart
+		u := func(x int) string { return "\\u" + fmt.Sprintf(hexForms[r.Intn(2)], x) }
+		hi, lo := 0xD800+r.Intn(0x400), 0xDC00+r.Intn(0x400)
+		switch i % 8 {
+		case 0:
+			sb.WriteString(u(hi))
+		case 1:
+			sb.WriteString(u(lo))
+		case 2:
+			sb.WriteString(u(lo) + u(hi))
+		case 3:
+			sb.WriteString(u(hi) + u(hi) + u(lo))
+		case 4:
+			sb.WriteString(u(hi) + "x" + u(lo))
+		case 5:
+			sb.WriteString(u(hi) + u(0x41+r.Intn(26)))
+		case 6:
+			sb.WriteString(u(hi) + u(lo) + u(lo))
+		default:
+			sb.WriteString("\\\\" + u(hi)) // an escaped backslash, then a lone half
+		}
+		if i%8 != 0 && i%8 != 3 && i%8 != 5 || r.Intn(2) == 0 { // after a high half the suffix must not begin with a low half: it never does (astral characters are written high first)
+			for _, ch := range g.str() {
+				sb.WriteString(EscapeRune(ch, esc, r))
+			}
+		}
+		lit := `"` + sb.String() + `"`
+		var t string
+		switch r.Intn(6) {
+		case 0:
+			t = lit
+		case 1:
+			t = "[" + lit + "]"
+		case 2:
+			t = `{"k":` + lit + `}`
+		case 3:
+			t = "{" + lit + `:1}`
+		case 4:
+			t = "{" + lit + `:null,"b":[]}`
+		default:
+			t = `[{"a":[null,` + lit + `]}, 1.5]`
+		}
+		if !json.Valid([]byte(t)) || encodingOK(t) {
+			panic("harness: " + t + " is not a JSON text with an unpaired surrogate escape")
+		}
+		lone.Texts = append(lone.Texts, t)
+		c.Count(fmt.Sprintf("unpaired-surrogate:kind%d", i%8), 1)
+	}
+	judge(c, []*ccase{lone})
+
+	// (M) the object model used directly: String.MarshalJSON on Go strings (README 8.3: a string with
+	// invalid encoding is refused; every valid one, U+FFFD included, is encoded as CanonicalJSON encodes it)
+	var oms []string
+	for _, q := range invalidSeqs {
+		oms = append(oms, q, "a"+q, q+"b", "\ufffd"+q)
+	}
+	for i := 0; i < c.Pick(300, 5000); i++ {
+		s := g.str()
+		if i%3 == 0 {
+			s += "\ufffd" + g.str()
+		}
+		oms = append(oms, s)
+	}
+	objectModelStrings(c, oms)
+
+	return c.Finish("contents generated type-directed (depth ≤ 6, null patterns, key classes, int64 boundaries, float64 of every kind, every scalar value as a one-character string), each rendered in 2–6 styles (member order, whitespace, escape style, number spelling); a text with a number beyond float64, with bytes that are not valid UTF-8 or with the escape of an unpaired UTF-16 surrogate must be rejected (U+FFFD itself is a character like any other); oracle on the Go output: all renderings agree, output parses with an independent strict canonical-form parser to the content minus null members, is valid UTF-8 JSON, canonicalises to itself, equals the README text computed by the Lean specification; then compared with the Lean model of the code (canon, and CanonicalJSON on the text's bytes — checkEncoding, also compared with the harness's own scanner — plus json.Decoder's tokens); c14n.String(s).MarshalJSON() directly on valid and invalid Go strings; malformed inputs must be rejected; non-trivial = canonicalisation changed the text of some rendering; distinct by content",
 		map[string]any{"float_digits": "the harness sends the digits/exponent strconv.FormatFloat(f,'E',-1,64) produces for the float64 of each non-integer number (strconv trusted); the strict parser re-reads the output digits with strconv.ParseFloat and checks they are the shortest digits of that float64"})
+}
+
+// objectModelStrings: c14n.String(s).MarshalJSON() fails exactly for Go strings that are not valid
+// UTF-8 and otherwise gives what CanonicalJSON gives for a JSON text of that string.
+func objectModelStrings(c *core.Ctx, ss []string) {
+	for _, s := range ss {
+		c.Count("stream:object-model-string", 1)
+		c.Eval("oms:"+s, true)
+		replay := &ccase{Stream: "object-model-string", Texts: []string{s}}
+		if !utf8.ValidString(s) {
+			replay.Hex = []string{hexs(s)}
+		}
+		var out []byte
+		var err error
+		if p := core.Protect(func() { out, err = c14n.String(s).MarshalJSON() }); p != "" {
+			c.Fail("", fmt.Sprintf("c14n.String(%q).MarshalJSON panicked: %s", short(s), p), replay)
+			continue
+		}
+		switch {
+		case !utf8.ValidString(s):
+			c.Count("object-model-string:invalid", 1)
+			if err == nil {
+				c.Fail("", fmt.Sprintf("c14n.String(%q), a string with invalid encoding, is encoded as %q instead of being refused (README rule 8.3)", short(s), short(string(out))), replay)
+			}
+		case err != nil:
+			c.Fail("", fmt.Sprintf("c14n.String(%q), a valid string, is refused: %v", short(s), err), replay)
+		default:
+			var sb strings.Builder
+			sb.WriteByte('"')
+			for _, ch := range s {
+				sb.WriteString(EscapeRune(ch, 2, nil))
+			}
+			sb.WriteByte('"')
+			if g := goCanon(sb.String()); g.err != "" || g.out != string(out) {
+				c.Fail("", fmt.Sprintf("c14n.String(%q).MarshalJSON gives %q, CanonicalJSON of %s gives %q %s", short(s), short(string(out)), short(sb.String()), short(g.out), g.err), replay)
+			}
+		}
+	}
 }
